@@ -127,7 +127,13 @@ def rule_C17(ctx, rule="C17-deleg"):
     b = F.bodies.get("repr::Repr::is_empty")
     if b:
         ds = ret_defs(b)
-        ctx.ob(rule, b.path, "view", ds == ["Eq(repr::Repr::len(p1), const:0)"], how="is_empty = (len() == 0)", detail="Repr::is_empty returns %s" % ds)
+        ok = ds == ["Eq(repr::Repr::len(p1), const:0)"]
+        if not ok and sorted(ds) == ["const:0", "const:1"]:
+            # `matches!(self.len(), 0)`: the `true` definition sits on the edge len() == 0
+            for (bb, si, x) in b.defs.get(0, []):
+                if si != "term" and x["k"] == "use" and "c" in x["a"] and x["a"]["c"].get("scalar") == 1:
+                    ok = any(g[0] == "cmp" and describe(b, g[1]) == "repr::Repr::len(p1)" and g[2] == 0 and g[3] == 0 for g in guards_at(b, bb))
+        ctx.ob(rule, b.path, "view", ok, how="is_empty = (len() == 0)", detail="Repr::is_empty returns %s" % ds)
 
 
 FROMSTR = r"(?:<LeanString as core::convert::From<&str>>::from|core::convert::From::from)"
@@ -268,11 +274,15 @@ def rule_C16(ctx, rule="C16-decode"):
                 bb, t = pc[0]
                 c = strip_refs(b.origin_operand(t["args"][1]))
                 gs = guards_at(b, bb)
-                cond = [g for g in gs if g[0] == "pred" and g[1] == "core::slice::<impl [T]>::is_empty" and g[3] is False and g[2] is not None and re.match(r"^core::str::lossy::Utf8Chunk::<'\w+>::invalid\(", describe(b, g[2]))]
+                INV = r"core::str::lossy::Utf8Chunk::<'\w+>::invalid\("
+                cond = [g for g in gs if g[0] == "pred" and g[1] == "core::slice::<impl [T]>::is_empty" and g[3] is False and g[2] is not None and re.match("^" + INV, describe(b, g[2]))]
+                # or a length / slice-pattern test: len(chunk.invalid()) >= 1
+                cond += [g for g in gs if g[0] == "cmp" and g[2] == 1 and g[3] is None and re.search(INV, describe(b, g[1]))]
+                cond += [g for g in gs if g[0] == "ne" and g[2] == 0 and re.search(INV, describe(b, g[1]))]
                 okc = c[0] == "const" and c[2] == REPL and bool(cond)
-                why = "push(%s) under %s" % (describe(b, c), [(g[1], g[3]) for g in gs if g[0] in ("pred",)])
+                why = "push(%s) under %s" % (describe(b, c), [(g[0], g[1] if isinstance(g[1], str) else "", g[2:4]) for g in gs])
                 # and under nothing else value-dependent
-                other = [g for g in gs if g[0] in ("cmp", "cmp2")]
+                other = [g for g in gs if g[0] in ("cmp", "cmp2", "ne") and g not in cond]
                 okc = okc and not other
             ctx.ob(rule, b.path, "replacement-iff-invalid-nonempty", okc, how="push(U+FFFD) exactly on the edge !chunk.invalid().is_empty()", detail="replacement character logic: %s" % why)
             # the push of the replacement comes after the valid part of the same chunk
@@ -284,9 +294,13 @@ def rule_C16(ctx, rule="C16-decode"):
     ctx.need(rule, "LeanString::from_utf16", "anchor", b is not None, "from_utf16 not found")
     if b:
         names = [callee_name(t) for _, t in b.calls()]
-        dec = [(bb, t) for bb, t in b.calls() if callee_name(t) == "core::char::methods::<impl char>::decode_utf16"]
-        ok = len(dec) == 1 and describe(b, b.origin_operand(dec[0][1]["args"][0])) == "core::iter::traits::iterator::Iterator::copied(core::slice::<impl [T]>::iter(p1))"
-        ctx.ob(rule, b.path, "decode_utf16(buf)", ok, how="decodes char::decode_utf16(buf.iter().copied())", detail="from_utf16 decodes %s" % [describe(b, b.origin_operand(t["args"][0])) for _, t in dec])
+        from guards import inlined_sites
+        dec = inlined_sites(b, lambda nm: nm == "core::char::methods::<impl char>::decode_utf16")
+        ok = len(dec) == 1 and dec[0].desc(0) == "core::iter::traits::iterator::Iterator::copied(core::slice::<impl [T]>::iter(p1))"
+        ctx.ob(rule, b.path, "decode_utf16(buf)", ok, how="decodes char::decode_utf16(buf.iter().copied())", detail="from_utf16 decodes %s" % [st.desc(0) for st in dec])
+        if dec and dec[0].body is not b:
+            # the loop lives in a private helper: judge the rest there
+            b = dec[0].body
         pc = [(bb, t) for bb, t in b.calls() if callee_name(t) in ("LeanString::push", "LeanString::try_push")]
         okp = False
         if len(pc) == 1:
@@ -317,13 +331,27 @@ def rule_C16(ctx, rule="C16-decode"):
         ok = ok or (len(ds) == 1 and re.match(r"^<LeanString as core::iter::traits::collect::FromIterator<char>>::from_iter\(core::iter::traits::iterator::Iterator::map\(core::char::methods::<impl char>::decode_utf16\(core::iter::traits::iterator::Iterator::copied\(core::slice::<impl \[T\]>::iter\(p1\)\)\), LeanString::from_utf16_lossy::\{closure#0\}::None\{\}\)\)$", ds[0]) is not None)
         ctx.ob(rule, b.path, "decode.map(unwrap_or).collect", ok or alt, how="decode_utf16(buf.iter().copied()).map(closure).collect::<LeanString>()", detail="from_utf16_lossy returns %s" % ds)
         c = F.bodies.get("LeanString::from_utf16_lossy::{closure#0}")
+        if c is None and len(ds) == 1:
+            # a local fn item instead of a closure
+            m2 = re.search(r"Iterator::map\(.*, fn:([^)]+)\)\)$", ds[0])
+            if m2 and m2.group(1) in F.bodies:
+                c = F.bodies[m2.group(1)]
+                ok = ok or re.match(r"^core::iter::traits::iterator::Iterator::collect\(core::iter::traits::iterator::Iterator::map\(core::char::methods::<impl char>::decode_utf16\(core::iter::traits::iterator::Iterator::copied\(core::slice::<impl \[T\]>::iter\(p1\)\)\), fn:", ds[0]) is not None
+                ctx.obs.pop(("C16-decode", b.path, "decode.map(unwrap_or).collect"), None)
+                ctx.ob(rule, b.path, "decode.map(unwrap_or).collect", ok or alt, how="decode_utf16(buf.iter().copied()).map(f).collect::<LeanString>()", detail="from_utf16_lossy returns %s" % ds)
         if c and not alt:
-            cds = ret_defs(c)
-            okc = cds == ["core::result::Result::<T, E>::unwrap_or(p2, const:core::char::methods::<impl char>::REPLACEMENT_CHARACTER)"]
+            cds = sorted(ret_defs(c))
+            okc = len(cds) == 1 and re.match(r"^core::result::Result::<T, E>::unwrap_or\(p[12], const:core::char::(methods::<impl char>::)?REPLACEMENT_CHARACTER\)$", cds[0]) is not None
             cv = None
             for bb, t in c.calls():
                 if callee_name(t).endswith("::unwrap_or"):
                     cv = strip_refs(c.origin_operand(t["args"][1]))
+            if not okc and len(cds) == 2:
+                # explicit match: Ok(c) => c, Err(_) => REPLACEMENT_CHARACTER
+                okc = any(re.match(r"^ok\(p[12]\)$", d) for d in cds) and any(re.match(r"^const:core::char::(methods::<impl char>::)?REPLACEMENT_CHARACTER$", d) for d in cds)
+                for (bb, si, x) in c.defs.get(0, []):
+                    if si != "term" and x["k"] == "use" and "c" in x["a"] and "scalar" in x["a"]["c"]:
+                        cv = ("const", "char", x["a"]["c"]["scalar"], None)
             ctx.ob(rule, c.path, "unwrap_or(U+FFFD)", okc and cv is not None and cv[2] == REPL, how="each unit: decoded.unwrap_or('\\u{FFFD}')", detail="lossy closure returns %s (constant %s)" % (cds, cv))
         # collect goes to FromIterator<char>
         for bb, t in b.calls():
@@ -430,7 +458,9 @@ def rule_C15(ctx, rule="C15"):
     b = F.bodies.get("traits::ToLeanString::to_lean_string")
     if b:
         ds = ret_defs(b)
-        ctx.ob(rule, b.path, "default", len(ds) == 1 and re.match(r"^<core::result::Result<T, E> as UnwrapWithMsg>::unwrap_with_msg\(traits::ToLeanString::try_to_lean_string\(p1\)\)$", ds[0]) is not None, how="to_lean_string = try_to_lean_string().unwrap_with_msg()", detail="to_lean_string returns %s" % ds)
+        import r_api
+        uw, _pf = r_api.find_unwrap_helper(F)
+        ctx.ob(rule, b.path, "default", len(ds) == 1 and uw is not None and (ds[0] in ("%s(traits::ToLeanString::try_to_lean_string(p1))" % uw, "ok(traits::ToLeanString::try_to_lean_string(p1))") and [callee_name(t) for _, t in b.calls()] == ["traits::ToLeanString::try_to_lean_string", uw]), how="to_lean_string = try_to_lean_string().unwrap_with_msg()", detail="to_lean_string returns %s" % ds)
     # the String arm copies the String's text
     if b is not None:
         tb = F.bodies.get(key)
